@@ -148,7 +148,7 @@ def impl(op, a):
     if op == 109:
         f, c = a[0]; return [[sp.get_sp_psc_raw(_flags(f), c)]]
     if op == 110:
-        return [[sp.get_apid_from_raw_space_packet(bytes(a[0]))]]
+        return [[sp.get_apid_from_raw_space_packet(bytearray(a[0]) if len(a[0]) % 2 else bytes(a[0]))]]
     if op == 111:
         return [[sp.get_total_space_packet_len_from_len_field(a[0][0])]]
     if op == 112:
@@ -437,6 +437,8 @@ def hist_streams(tier, rng):
     for i in range(48):
         y = list(x); y[i // 8] ^= 1 << (i % 8)
         cases.append((122, [x, y]))
+    for ln in (6, 7, 255, 256, 257, 511, 512, 513, 1024, 4096, 65542):
+        cases.append((110, [[rng.randrange(256) for _ in range(ln)]]))
     yield "hdr_bytearray_and_rows", "exact", cases
     # 10. SpacePacket objects: parts given as bytes or bytearray, header edited through sp_header,
     #     parts replaced, pack repeated, equality with an independently built packet
